@@ -5,6 +5,7 @@ import (
 	"bytes"
 	"encoding/json"
 	"fmt"
+	"io"
 	"math/rand"
 	"os"
 	"os/exec"
@@ -32,6 +33,9 @@ type DecideCase struct {
 	Flags  uint32    `json:"flags"`
 	Events []Event   `json:"events"`
 	Start  int       `json:"start"`
+	// Warm: the library value that is loaded has a history — it was built with other operands, assembled
+	// and dumped once, and then edited in place (same shape) to the policy of this case.
+	Warm bool `json:"warm,omitempty"`
 }
 
 // probe syscalls ignore their registers.  The Go runtime itself uses getpid, gettid and sched_yield,
@@ -49,7 +53,7 @@ const (
 func probeNr(name string) uint64 { return uint64(vd.ArchInfo("x86_64").SyscallNames[name]) }
 
 func genDecide(r *rand.Rand) DecideCase {
-	c := DecideCase{NNP: true, Flags: []uint32{0, 1, 2, 3}[r.Intn(4)]}
+	c := DecideCase{NNP: true, Flags: []uint32{0, 1, 2, 3}[r.Intn(4)], Warm: r.Intn(4) == 0}
 	if r.Intn(4) == 0 {
 		c.NNP = false // the harness runs as root
 	}
@@ -204,6 +208,24 @@ func childDecide(c DecideCase) {
 	syscall.Setrlimit(syscall.RLIMIT_CORE, &lim)
 	out := bufio.NewWriter(os.Stdout)
 	gp := c.Policy.ToGo()
+	if c.Warm {
+		for gi := range gp.Syscalls {
+			for ni := range gp.Syscalls[gi].NamesWithCondtions {
+				for ci := range gp.Syscalls[gi].NamesWithCondtions[ni].Conditions {
+					gp.Syscalls[gi].NamesWithCondtions[ni].Conditions[ci].Value ^= 1
+				}
+			}
+		}
+		gp.Assemble()
+		gp.Dump(io.Discard)
+		for gi := range gp.Syscalls {
+			for ni := range gp.Syscalls[gi].NamesWithCondtions {
+				for ci := range gp.Syscalls[gi].NamesWithCondtions[ni].Conditions {
+					gp.Syscalls[gi].NamesWithCondtions[ni].Conditions[ci].Value ^= 1
+				}
+			}
+		}
+	}
 	filter := seccomp.Filter{NoNewPrivs: c.NNP, Flag: seccomp.FilterFlag(c.Flags), Policy: gp}
 	if err := seccomp.LoadFilter(filter); err != nil {
 		fmt.Fprintf(out, "load-error %v\n", err)
